@@ -32,6 +32,8 @@ pub struct PubSub {
     pub hostile: bool,
     /// the scheduler may register the sockets in any order
     pub any_order: bool,
+    /// property that owns the delivery clauses (default: derived from faults/close/hostile)
+    pub owner: Option<&'static str>,
 }
 
 impl PubSub {
@@ -189,8 +191,10 @@ pub fn run(scn: &PubSub, ch: &mut Chooser, want_trace: bool) -> RunOut {
     let mut g = lock(&w);
     let abandoned = out.spun || out.livelock || out.panicked.is_some();
     common_c09(&out, &g, "pubsub", &mut viol);
+    let owner = scn.owner.unwrap_or(if scn.hostile { "C11" } else if scn.faults { "C08" } else { "" });
+    copy_c09_to_owner(owner, &mut viol);
     if let Some((m, l)) = &out.panicked {
-        let prop = if scn.hostile { "C11" } else if scn.faults { "C08" } else if scn.close { "C16" } else { "C01" };
+        let prop = scn.owner.unwrap_or(if scn.hostile { "C11" } else if scn.faults { "C08" } else if scn.close { "C16" } else { "C01" });
         viol.push(RViol { prop, clause: format!("pubsub:panic:{}:{}", panics_file(l), mask(m)), msg: format!("router panicked: {m} at {l}") });
     }
     let oh = outcome_hash(&g, &out);
@@ -213,6 +217,15 @@ pub fn panics_file(loc: &str) -> String {
 
 pub fn mask(m: &str) -> String {
     vcommon::report::mask_numbers(m).chars().take_while(|c| !matches!(c, '\'' | '"' | '`')).take(60).collect()
+}
+
+/// In fault and hostile-frame families a router that spins or sleeps on undone work has also
+/// stopped "serving the others" (C08) / become "unusable for other peers" (C11).
+pub fn copy_c09_to_owner(owner: &'static str, viol: &mut Vec<RViol>) {
+    if owner == "C08" || owner == "C11" {
+        let copies: Vec<RViol> = viol.iter().filter(|v| v.prop == "C09").map(|v| RViol { prop: owner, clause: format!("stops-serving:{}", v.clause), msg: v.msg.clone() }).collect();
+        viol.extend(copies);
+    }
 }
 
 /// C09 clauses common to both routers.
@@ -265,7 +278,7 @@ pub fn outcome_hash(g: &World, out: &Outcome) -> u64 {
 
 fn oracle(scn: &PubSub, g: &World, out: &Outcome, viol: &mut Vec<RViol>) {
     // which property owns delivery clauses in this family
-    let prop: &'static str = if scn.hostile {
+    let prop: &'static str = scn.owner.unwrap_or(if scn.hostile {
         "C11"
     } else if scn.faults {
         "C08"
@@ -273,7 +286,22 @@ fn oracle(scn: &PubSub, g: &World, out: &Outcome, viol: &mut Vec<RViol>) {
         "C16"
     } else {
         "C01"
-    };
+    });
+    // a healthy publisher must neither be dropped by the router nor left with frames it offered
+    // but the router never took although nothing is blocked any more
+    if out.done.is_none() {
+        for st in g.streams.iter() {
+            if st.sent_at.is_none() || st.first_touch.is_none() {
+                continue;
+            }
+            let in_run_drop = st.dropped_at.map_or(false, |d| d < g.end_clock);
+            if in_run_drop && !st.ended && !st.depart {
+                viol.push(RViol { prop, clause: "pubsub:healthy-publisher-dropped".into(), msg: format!("{} had not finished, yet the router dropped its stream ({} of {} frames taken)", st.label, st.next, st.script.len()) });
+            } else if !in_run_drop && !st.ended && !st.blocked && st.next < st.script.len() {
+                viol.push(RViol { prop, clause: "pubsub:publisher-not-drained".into(), msg: format!("{} still offers {} which the router never took although nothing is blocked", st.label, frame_brief(&st.script[st.next])) });
+            }
+        }
+    }
     let log: Vec<&Frame> = g.yielded.iter().map(|(_, _, f)| f).collect();
     for s in g.sinks.iter() {
         if s.sent_at.is_none() || s.failed.is_some() {
